@@ -32,7 +32,7 @@ def gen(tier, rng):
     polys.append(([Q - 1] * 256, "extreme")); polys.append(([-(Q - 1)] * 256, "extreme"))
     polys.append(([(Q - 1) if i % 2 else -(Q - 1) for i in range(256)], "extreme"))
     polys.append(([rng.randint(-4, 4) for _ in range(256)], "small"))
-    for _ in range(40 if tier == "quick" else 3000):
+    for _ in range(40 if tier == "quick" else 1000):
         polys.append((rand_poly(rng, -Q + 1, Q - 1), "random"))
     for a, t in polys:
         out.append(Case("ntt_ntt", "-", [a], ["in_domain", t, "fwd"]))
